@@ -11,7 +11,7 @@ def part(name, mod, pkg, run, shards=(1, 1), budget=(120, 900), gomaxprocs=None,
     return d
 
 
-HOOK_COMMITS = ["de0ef9f"]
+HOOK_COMMITS = ["de0ef9f", "45f02bf", "e9a40a6"]
 NOT_APPLICABLE = {}
 
 CHECKS = {
